@@ -11,7 +11,12 @@ ROOT = os.environ.get("VERIF_ROOT") or os.path.dirname(os.path.dirname(os.path.a
 BUILD = os.path.join(ROOT, ".build")
 SPEC = os.path.join(ROOT, "spec")
 HARNESS = os.path.join(ROOT, "harness")
-YV = os.path.join(BUILD, "harness-target", "release", "yv")
+# VERIF_REPO=<dir>: build the harness against another checkout of the repository (used to try seeded changes
+# without touching /repo); its crates override the /repo path dependencies, with a separate target directory.
+REPO = os.environ.get("VERIF_REPO") or "/repo"
+ALT = REPO != "/repo"
+TARGET = os.path.join(BUILD, "harness-target-alt" if ALT else "harness-target")
+YV = os.path.join(TARGET, "release", "yv")
 TLCW = os.path.join(ROOT, "bin", "tlcw")
 KNOWN = os.path.join(ROOT, "known_findings.json")
 
@@ -66,7 +71,11 @@ class Ctx:
     # ------------------------------------------------------------------ harness
     def build_harness(self):
         self.log("building harness against /repo working tree (cfg yui_verif)")
-        rc, out = sh(["cargo", "build", "--release", "--offline"], cwd=HARNESS, timeout=3000)
+        cmd = ["cargo", "build", "--release", "--offline"]
+        if ALT:
+            crates = ["yui", "yui-matrix", "yui-homology", "yui-link", "yui-khovanov"]
+            cmd += ["--target-dir", TARGET, "--config", "paths=[%s]" % ",".join('"%s/%s"' % (REPO, c) for c in crates)]
+        rc, out = sh(cmd, cwd=HARNESS, timeout=3000)
         if rc != 0:
             print(out[-6000:])
             raise ToolError("harness build failed (rc=%d)" % rc)
